@@ -56,7 +56,7 @@ R = {
 
  "C09r2_a": ("C09", "caught", "C09.delay_request_does_not_outlive_its_yield"),
  "C14r2_a": ("C14", "caught (coroutine caller explored since C14_a)", "C14.timed_wait_returns_only_at_or_after_the_deadline"),
- "C14r2_b": ("C14", "missed", "{0 s, 4.5e6 us} is clamped to just under 1 s: still more than the 143 ms the bounded select units can observe (12 wait rounds); the conversion is inline in an unbounded loop"),
+ "C14r2_b": ("C14", "caught by the thorough tier only (unit added because of this seed); the quick tier misses it", "C14.select_never_waits_less_than_requested (c14_select_up_to_5s, 500 s; counterexample tv_usec = 4 718 591 replayed on the real hook: returned after 1.02 s instead of 4.72 s). Quick tier: {0 s, 4.5e6 us} clamped to just under 1 s is still more than the 143 ms its select units observe"),
  "C20r2_a": ("C20", "caught (after adding the wait_event unit)", "C20.every_round_polls_the_selector_once"),
  "C20r2_b": ("C21", "caught by the C21 check (the stale write record breaks its invariant); the C20 units do not observe records", "C21.close_leaves_no_record, C21.inv_after"),
  "C25r2_a": ("C25", "caught (after adding the zero-sized value unit)", "C25.values_dropped_with_owner"),
